@@ -120,7 +120,7 @@ Mutate(f, m) ==
     [] m \in {"progbook_none", "progbook_lowercase_flags", "progbook_zero_outcome"} -> f          \* spelling of Y/N flags, an outcome of exactly 0: no rule broken
     [] m = "progbook_unknown_population" -> [f EXCEPT !.pb.tpops = @ \cup {"nobody"}]
     [] m = "progbook_unknown_compartment" -> [f EXCEPT !.pb.tcomps = @ \cup {"ghost"}]
-    [] m \in {"progbook_duplicate_program", "progbook_duplicate_program_everywhere"} -> [f EXCEPT !.pb.dupprogs = 1]
+    [] m \in {"progbook_duplicate_program", "progbook_duplicate_program_everywhere", "progbook_duplicate_program_consistent"} -> [f EXCEPT !.pb.dupprogs = 1]
     [] m = "progbook_reserved_program_name" -> [f EXCEPT !.pb.progs = @ \cup {"all"}]
     [] m = "progbook_untargetable_parameter" -> [f EXCEPT !.pb.epars = @ \cup {"wane"}]
     [] m = "progbook_unknown_parameter" -> [f EXCEPT !.pb.epars = @ \cup {"ghostpar"}]
